@@ -226,11 +226,11 @@ Proof. unfold read_data. fr. Qed.
 #[local] Hint Resolve frames_read_data : frames.
 
 (* ---- the two writers of the table ---- *)
-Lemma framesR_wdem : forall (P : N -> bool) j (g1 g2 : dirent -> N),
+Lemma framesR_wdem_inner : forall (P : N -> bool) j (g1 g2 : dirent -> N),
   P j = true ->
-  framesR P (with_dir_entry_mut j (fun e => set_start_len e (g1 e) (g2 e))).
+  framesR P (with_dir_entry_mut_inner j (fun e => set_start_len e (g1 e) (g2 e))).
 Proof.
-  intros P j g1 g2 Pj. unfold with_dir_entry_mut.
+  intros P j g1 g2 Pj. unfold with_dir_entry_mut_inner.
   intros s. unfold bind at 1. unfold dir_entry at 1. unfold bind at 1, get at 1.
   destruct (nthN (dirs s) j) as [e|] eqn:He; [|apply DF_refl].
   unfold ret at 1. cbv beta iota.
@@ -239,6 +239,17 @@ Proof.
   pose proof (frames_write_dir_entry j
                 (w_dirs s (updN (dirs s) j (set_start_len e (g1 e) (g2 e))))) as F.
   rewrite F. cbn [dirs w_dirs]. apply DF_upd; assumption.
+Qed.
+
+(* a failed call puts the table back *)
+Lemma framesR_wdem : forall (P : N -> bool) j (g1 g2 : dirent -> N),
+  P j = true ->
+  framesR P (with_dir_entry_mut j (fun e => set_start_len e (g1 e) (g2 e))).
+Proof.
+  intros P j g1 g2 Pj s. pose proof (framesR_wdem_inner P j g1 g2 Pj s) as F.
+  unfold with_dir_entry_mut.
+  destruct (with_dir_entry_mut_inner j (fun e => set_start_len e (g1 e) (g2 e)) s) as [s1 [u| | |]];
+    cbn [fst dirs w_dirs] in *; first [exact F | apply DF_refl].
 Qed.
 
 Definition PR (id : N) : N -> bool := fun j => (j =? id) || (j =? ROOT_STREAM_ID).
@@ -798,15 +809,16 @@ Lemma write_big_quiet : forall s id V ids dids e off buf,
   big_content s id V -> stream_ids s id ids -> StoreWf s ->
   nthN (dirs s) id = Some e -> dir_ids s dids ->
   off <= lenN V -> off + lenN buf <= slen s * lenN ids ->
+  N.max (lenN V) (off + lenN buf) <= N.min (MAX_REGULAR_SECTOR * slen s) (stream_len_mask (ver s)) ->
   exists s',
     write_data id off buf s = (s', Ok tt) /\
     Quiet s s' id e (N.max (d_len e) (off + lenN buf)) (ids ++ dids).
 Proof.
-  intros s id V ids dids e1 off buf HB (e0 & He0 & _ & Hc0) Hwf He1 Hdids Hoff Hfit.
+  intros s id V ids dids e1 off buf HB (e0 & He0 & _ & Hc0) Hwf He1 Hdids Hoff Hfit Hbounds.
   pose proof HB as (e & ids' & He & Ht & Hcut & Hc & Hg & Hle & HV).
   rewrite He in He0. injection He0 as <-. rewrite Hc in Hc0. injection Hc0 as ->.
   rewrite He in He1. injection He1 as <-.
-  pose proof (big_content_len _ _ _ _ HB He) as HlV. rewrite HlV in Hoff.
+  pose proof (big_content_len _ _ _ _ HB He) as HlV. rewrite HlV in Hoff, Hbounds.
   destruct (chain_ids_head _ _ _ Hc (ids_nonempty s ids _ Hcut Hle)) as (Hst & t & Eids).
   set (new_len := N.max (d_len e) (off + lenN buf)).
   destruct (chain_write_spec s (mkChain IZero ids off) buf Hg)
@@ -828,7 +840,11 @@ Proof.
     rewrite (bind_exec _ _ _ _ _ (stream_entry_exec s id e He Ht)).
     cbv beta iota zeta.
     destruct (d_len e <? off) eqn:E1; [lia|]. rewrite bind_ret.
-    fold new_len.
+    fold new_len. fold new_len in Hbounds.
+    rewrite (bind_exec _ _ _ _ _ (eq_refl : get s = (s, Ok s))). cbv beta iota zeta.
+    replace (N.min (MAX_REGULAR_SECTOR * slen s) (stream_len_mask (ver s)) <? new_len) with false
+      by (symmetry; apply N.ltb_ge; exact Hbounds).
+    rewrite (bind_exec _ _ _ _ _ (eq_refl : ret tt s = (s, Ok tt))).
     match goal with |- bind ?m _ s = _ => assert (E : m s = (s1, Ok (d_start e))) end.
     { destruct (d_start e =? END_OF_CHAIN) eqn:E2; [apply N.eqb_eq in E2; contradiction|].
       destruct (d_len e <? MINI_STREAM_CUTOFF) eqn:E3; [lia|].
@@ -872,11 +888,12 @@ Lemma resize_big_quiet : forall s id V ids dids e new_len,
   MINI_STREAM_CUTOFF <= new_len ->
   new_len <= slen s * lenN ids -> slen s * lenN ids < new_len + slen s ->
   new_len <= MAX_REGULAR_SECTOR * slen s ->
+  new_len <= stream_len_mask (ver s) ->
   exists s',
     resize id new_len s = (s', Ok tt) /\
     Quiet s s' id e new_len (ids ++ dids).
 Proof.
-  intros s id V ids dids e1 new_len HB (e0 & He0 & _ & Hc0) Hwf He1 Hdids Hnl Hfit Htight Hmax.
+  intros s id V ids dids e1 new_len HB (e0 & He0 & _ & Hc0) Hwf He1 Hdids Hnl Hfit Htight Hmax Hmask.
   pose proof HB as (e & ids' & He & Ht & Hcut & Hc & Hg & Hle & HV).
   rewrite He in He0. injection He0 as <-. rewrite Hc in Hc0. injection Hc0 as ->.
   rewrite He in He1. injection He1 as <-.
@@ -902,6 +919,8 @@ Proof.
     cbv beta iota zeta.
     rewrite (bind_exec _ _ _ _ _ (eq_refl : get s = (s, Ok s))). cbv beta iota zeta.
     replace (MAX_REGULAR_SECTOR * slen s <? new_len) with false by (symmetry; apply N.ltb_ge; exact Hmax).
+    rewrite (bind_exec _ _ _ _ _ (eq_refl : ret tt s = (s, Ok tt))).
+    rewrite (mask_check_false s new_len Hmask).
     rewrite (bind_exec _ _ _ _ _ (eq_refl : ret tt s = (s, Ok tt))).
     match goal with |- bind ?m _ s = _ => assert (E : m s = (s1, Ok (d_start e))) end.
     { destruct (d_start e =? END_OF_CHAIN) eqn:E2; [apply N.eqb_eq in E2; contradiction|].
@@ -982,6 +1001,7 @@ Proof.
   unfold write_data. sred.
   rewrite (stream_entry_ok s id e Hnth Ht). sred.
   assert (E1 : (d_len e <? off) = false) by lia. rewrite E1.
+  rewrite (both_check_false_small s (N.max (d_len e) (off + lenN buf))) by lia.
   assert (E2 : (d_start e =? END_OF_CHAIN) = false) by lia. rewrite E2.
   assert (E3 : (d_len e <? MINI_STREAM_CUTOFF) = true) by lia. rewrite E3.
   fold ln.
@@ -1019,6 +1039,7 @@ Proof.
   assert (E0 : (MAX_REGULAR_SECTOR * slen s <? new_len) = false).
   { pose proof (ChainProofs.slen_pos s). apply N.ltb_ge. rewrite MAXREG_val. rewrite CUTOFF_val in *. nia. }
   rewrite E0. sred.
+  rewrite (mask_check_false s new_len) by (apply small_fits_mask; lia). sred.
   assert (E2 : (d_start e =? END_OF_CHAIN) = false) by lia. rewrite E2.
   assert (E3 : (d_len e <? MINI_STREAM_CUTOFF) = true) by lia. rewrite E3.
   assert (E4 : (new_len =? 0) = false) by lia. rewrite E4.
@@ -1341,7 +1362,8 @@ Qed.
 Definition CoveredWrite (s : cstate) (id off : N) (buf : list byte) : Prop :=
   (* S2/S3: large stream, the write ends inside the capacity of its chain *)
   (exists V ids, big_content s id V /\ stream_ids s id ids /\
-     off <= lenN V /\ off + lenN buf <= slen s * lenN ids) \/
+     off <= lenN V /\ off + lenN buf <= slen s * lenN ids /\
+     N.max (lenN V) (off + lenN buf) <= N.min (MAX_REGULAR_SECTOR * slen s) (stream_len_mask (ver s))) \/
   (* M2/M3: small stream, the write ends inside its mini chain, below the cutoff *)
   (exists e rids mids V, small_at s id e rids mids V /\
      off <= lenN V /\ off + lenN buf <= 64 * lenN mids /\
@@ -1351,7 +1373,7 @@ Definition CoveredResize (s : cstate) (id n : N) : Prop :=
   (* S4/S5 with an unchanged number of sectors *)
   (exists V ids, big_content s id V /\ stream_ids s id ids /\
      MINI_STREAM_CUTOFF <= n /\ n <= slen s * lenN ids /\ slen s * lenN ids < n + slen s /\
-     n <= MAX_REGULAR_SECTOR * slen s) \/
+     n <= MAX_REGULAR_SECTOR * slen s /\ n <= stream_len_mask (ver s)) \/
   (* M4/M5 with an unchanged number of mini sectors *)
   (exists e rids mids V, small_at s id e rids mids V /\
      0 < n /\ (64 + n - 1) / 64 = lenN mids /\ n < MINI_STREAM_CUTOFF).
@@ -1371,10 +1393,10 @@ Theorem write_data_frames_others : forall s id off buf,
   exists s',
     write_data id off buf s = (s', Ok tt) /\ AllStreamsWf s' /\ StoreFrame id s s'.
 Proof.
-  intros s id off buf HA [(V & ids & HB & Hsi & Hoff & Hfit)|(e & rids & mids & V & Hsm & Hoff & Hfit & Hcut)].
+  intros s id off buf HA [(V & ids & HB & Hsi & Hoff & Hfit & Hbounds)|(e & rids & mids & V & Hsm & Hoff & Hfit & Hcut)].
   - destruct (big_content_ids s id V ids HB Hsi) as (e & He & Hbig).
     destruct (sw_dir s (aw_store s HA)) as (dids & Hd & _).
-    destruct (write_big_quiet s id V ids dids e off buf HB Hsi (aw_store s HA) He Hd Hoff Hfit)
+    destruct (write_big_quiet s id V ids dids e off buf HB Hsi (aw_store s HA) He Hd Hoff Hfit Hbounds)
       as (s' & Hrun & HQ).
     exists s'. split; [exact Hrun|].
     apply (big_op_frame s s' id e ids dids (N.max (d_len e) (off + lenN buf)) HA He Hbig Hd); [|exact HQ].
@@ -1395,10 +1417,10 @@ Theorem resize_frames_others : forall s id n,
   exists s',
     resize id n s = (s', Ok tt) /\ AllStreamsWf s' /\ StoreFrame id s s'.
 Proof.
-  intros s id n HA [(V & ids & HB & Hsi & Hn & Hfit & Htight & Hmax)|(e & rids & mids & V & Hsm & H0 & Hceil & Hcut)].
+  intros s id n HA [(V & ids & HB & Hsi & Hn & Hfit & Htight & Hmax & Hmask)|(e & rids & mids & V & Hsm & H0 & Hceil & Hcut)].
   - destruct (big_content_ids s id V ids HB Hsi) as (e & He & Hbig).
     destruct (sw_dir s (aw_store s HA)) as (dids & Hd & _).
-    destruct (resize_big_quiet s id V ids dids e n HB Hsi (aw_store s HA) He Hd Hn Hfit Htight Hmax)
+    destruct (resize_big_quiet s id V ids dids e n HB Hsi (aw_store s HA) He Hd Hn Hfit Htight Hmax Hmask)
       as (s' & Hrun & HQ).
     exists s'. split; [exact Hrun|].
     exact (big_op_frame s s' id e ids dids _ HA He Hbig Hd Hn HQ).
@@ -1928,7 +1950,7 @@ Qed.
    (S4), growth from the free stack (S6), growth by appending sectors (S6') *)
 Definition FatResize (s : cstate) (id n : N) : Prop :=
   exists V ids, big_content s id V /\ stream_ids s id ids /\
-    n <= MAX_REGULAR_SECTOR * slen s /\
+    n <= MAX_REGULAR_SECTOR * slen s /\ n <= stream_len_mask (ver s) /\
     ((MINI_STREAM_CUTOFF <= n /\ n <= slen s * lenN ids) \/
      (exists base nw, slen s * lenN ids < n /\ free s = base ++ rev nw /\
         lenN ids + lenN nw = (slen s + n - 1) / slen s) \/
@@ -1951,7 +1973,7 @@ Theorem resize_fat_frames_big_others : forall s id n,
        exists e', nthN (dirs s') id = Some e' /\ same_meta_ent e e') /\
     (forall id' V', id' <> id -> big_content s id' V' -> big_content s' id' V').
 Proof.
-  intros s id n HA (V & ids & HB & Hsi & Hmax & Hcase).
+  intros s id n HA (V & ids & HB & Hsi & Hmax & Hmask & Hcase).
   pose proof (aw_store s HA) as Hwf.
   destruct (big_content_ids s id V ids HB Hsi) as (e & He & Hbig).
   pose proof Hbig as (e0 & He0 & Ht & Hcut & Hch). rewrite He in He0. injection He0 as <-.
@@ -1971,12 +1993,12 @@ Proof.
   assert (Hrun : exists s', resize id n s = (s', Ok tt) /\
             (forall id' V', id' <> id -> big_content s id' V' -> big_content s' id' V')).
   { destruct Hcase as [[H1 H2]|[(base & nw & H1 & H2 & H3)|(k & K1 & K2 & K3 & K4 & K5 & K6 & K7)]].
-    - destruct (resize_big_no_alloc s id V ids n HB Hsi Hwf H1 H2 Hmax) as (s' & R & _ & _ & _ & _ & _ & O).
+    - destruct (resize_big_no_alloc s id V ids n HB Hsi Hwf H1 H2 Hmax Hmask) as (s' & R & _ & _ & _ & _ & _ & O).
       exists s'. split; [exact R|exact (Hoth s' O)].
-    - destruct (resize_big_grow_zero_new_sectors s id V ids n base nw HB Hsi Hwf H1 H2 H3 Hmax)
+    - destruct (resize_big_grow_zero_new_sectors s id V ids n base nw HB Hsi Hwf H1 H2 H3 Hmax Hmask)
         as (s' & R & _ & _ & _ & _ & _ & O).
       exists s'. split; [exact R|exact (Hoth s' O)].
-    - destruct (resize_big_grow_zero_append s id V ids n k HB Hsi Hwf K1 K2 K3 K4 K5 K6 K7 Hmax)
+    - destruct (resize_big_grow_zero_append s id V ids n k HB Hsi Hwf K1 K2 K3 K4 K5 K6 K7 Hmax Hmask)
         as (s' & R & _ & _ & _ & _ & _ & _ & O).
       exists s'. split; [exact R|exact (Hoth s' O)]. }
   destruct Hrun as (s' & R & O). exists s'. split; [exact R|].
@@ -2337,7 +2359,7 @@ Module Example.
     cbn [covered_op]. intros _. left.
     destruct (big_check (cs fE) Vb idsb fE_wf) as [HB Hsi]; [vm_compute; reflexivity|].
     exists Vb, idsb. split; [exact HB|]. split; [exact Hsi|].
-    split; vm_compute; discriminate.
+    split; [|split]; vm_compute; discriminate.
   Qed.
 
   (* ... and after the three operations through the handle of /b *)
@@ -2445,7 +2467,7 @@ Module Example.
     rewrite E, I.
     destruct (big_check (cs fF) Vb' idsb fF_wf) as [HB Hsi]; [vm_compute; reflexivity|].
     exists Vb', idsb. split; [exact HB|]. split; [exact Hsi|].
-    split; [vm_compute; discriminate|]. left. split; vm_compute; discriminate.
+    split; [vm_compute; discriminate|]. split; [vm_compute; discriminate|]. left. split; vm_compute; discriminate.
   Qed.
   Example setlen_b_keeps_a_entry :
     free (cs fF) = [] /\ free (cs fG) = [13] /\
